@@ -523,6 +523,8 @@ class Community(EZPackOverlay):
                                                           new_style=True)
                     self.endpoint.send(peer.address, packet)
 
+        if isinstance(payload.source_lan_address, UDPv4Address):
+            peer.address = UDPv4LANAddress(*payload.source_lan_address)
         self.network.add_verified_peer(peer)
         self.network.discover_services(peer, [self.community_id, ])
 
